@@ -477,7 +477,7 @@ class Large(Component):
     rule = "a 'must' pair and a pair the filter drops"
 
     def examples(self, tier):
-        return 20 if tier == "quick" else 80
+        return 20 if tier == "quick" else 300
 
     def strategy(self, tier):
         return large_filter_case(tier)
